@@ -1,5 +1,6 @@
 import Insim.Drv.C13
 import Insim.Drv.C15
+import Insim.Drv.Conn
 /-
 Line-protocol driver: one operation per input line, one canonical result per output line.
 Imports model files only (no Mathlib, no proof files) so that it links as a native executable.
@@ -8,7 +9,7 @@ open Insim.Drv
 
 def dispatch (line : String) : String :=
   let ws := words line
-  let hs : List (List String → Option String) := [C13.handle, C15.handle]
+  let hs : List (List String → Option String) := [C13.handle, C15.handle, Conn.handle]
   match hs.findSome? (fun h => h ws) with
   | some r => r
   | none => "bad-op"
